@@ -266,7 +266,7 @@ def run(ctx):
     ctx.count(evaluations=ncorp, nontrivial=ncorp)
 
     quick = ctx.tier == "quick"
-    nprog, kcap, nmatch = (320, 2, 120) if quick else (2200, 3, 600)
+    nprog, kcap, nmatch = (320, 2, 120) if quick else (1600, 3, 500)
     cases_path = os.path.join(ctx.outdir, "cases.jsonl")
     rc, so, se = common.sh([RUN, "gen", str(ctx.seed), str(nprog), str(kcap), str(nmatch), cases_path], timeout=900)
     if rc != 0:
